@@ -247,6 +247,7 @@ OBJS = {
         "m_edge.WildChoice",
     ),
     "owner": (lambda: me.Owner(pet=me.HouseDog(name="d", collar=me.Collar(color="blue"), bark=1), others=[me.HouseCat(name="c", lives=9), me.Pet(name="p", collar=me.Collar())]), "m_edge.Owner"),
+    "stamped": (lambda: me.Stamped(release=me.Release.SECOND, days=[me.Day.D1, me.Day.D2]), "m_edge.Stamped"),
     "attrmix": (lambda: me.AttrMix(id="i", lang="en", space="preserve", qualified=4, rest={"{urn:o}x": "1", "plain": "p"}, value=7), "m_edge.AttrMix"),
 }
 # objects whose annotations resolve only with SerializerConfig.globalns: serialized with that configuration only
@@ -410,6 +411,7 @@ _x("hw_rated", "m_edge.Rated", """<rated xmlns="urn:e" rates="2 0.0 1.50" scale=
 _x("hw_onewild", "m_edge.OneWild", """<e:oneWild xmlns:e="urn:e"><e:head>h</e:head><e:thing><e:w>1</e:w></e:thing><e:tail>2</e:tail></e:oneWild>""")
 _x("hw_onewild_two", "m_edge.OneWild", """<e:oneWild xmlns:e="urn:e"><e:slotted id="1"/><e:thing><e:w>1</e:w></e:thing><free>x</free></e:oneWild>""")
 _x("hw_wildchoice", "m_edge.WildChoice", """<e:wildChoice xmlns:e="urn:e" xmlns:o="urn:o" xmlns:xsi="http://www.w3.org/2001/XMLSchema-instance" label="l"><e:thing><e:w>1</e:w></e:thing><e:n>5</e:n><o:free a="1">f</o:free><e:color>red</e:color><e:color xsi:nil="true"/><e:slotted id="3"/><plain/></e:wildChoice>""")
+_x("hw_stamped", "m_edge.Stamped", """<stamped xmlns="urn:e" days="1999-12-31 2020-02-29" at="2020-01-01T00:00:00"><release>2020-01-01T00:00:00</release><opens>09:00:00</opens></stamped>""")
 _x("hw_attrmix", "m_edge.AttrMix", """<e:attrMix xmlns:e="urn:e" xmlns:o="urn:o" id="i" xml:lang="en" xml:space="preserve" e:qualified="4" o:x="1" plain="p"> 7 </e:attrMix>""")
 _x("hw_item_constructs", "m_basic.Item", """<?xml version="1.0"?><!DOCTYPE item [<!ENTITY nm "entity name">]><?pi before?><!-- c --><item xmlns="urn:basic" id="&#49;" xml:lang="en"><?pi inside?><name>&nm; <![CDATA[<cdata>]]> &amp;<!-- in text --> end</name><qty><![CDATA[2]]></qty></item><!-- after --><?pi after?>""")
 _x("hw_item_leapday", "m_basic.Item", """<item xmlns="urn:basic" id="1"><name>leap</name><when>2024-02-29</when><stamp>2024-02-29T10:00:00Z</stamp><at>23:59:59.999</at><took>P1Y2M3DT4H5M6.5S</took></item>""")
@@ -485,6 +487,7 @@ JSON = {
     "js_rated": ('{"rate": "1.5", "rates": ["2", "0"], "amount": "12.50", "scale": "1.0", "unit": 2.5}', "m_edge.Rated", None),
     "js_wildchoice": ('{"items": [{"w": 1}, 5, "red", {"qname": "{urn:o}free", "text": "f", "tail": null, "children": [], "attributes": {}}, {"qname": "{urn:e}n", "type": null, "value": 7}, {"qname": "{urn:o}slot", "type": "{urn:e}slotted", "value": {"id": 1, "v": [], "kid": null}}], "label": "l"}', "m_edge.WildChoice", None),
     "js_owner": ('{"pet": {"name": "d", "bark": 1, "collar": {"color": "blue"}}, "other": [{"name": "c", "lives": 9, "collar": null}, {"name": "p", "collar": {"color": null}}]}', "m_edge.Owner", None),
+    "js_stamped": ('{"release": "2021-06-30T23:59:59+02:00", "days": ["2020-02-29"], "at": "2020-01-01T00:00:00", "opens": "09:00:00"}', "m_edge.Stamped", None),
     "js_attrmix": ('{"id": "i", "lang": "en", "space": null, "qualified": 4, "rest": {"{urn:o}x": "1", "plain": "p"}, "value": 7}', "m_edge.AttrMix", None),
     "js_noclass_thing_w": ('{"w": 5}', None, None),
     "js_noclass_thing_v": ('{"v": "only the local type has this"}', None, None),
